@@ -35,3 +35,15 @@ LOOPINV = ['Check invariant after step for loop', 'Check ensures clause of contr
 scanner('member', '_dbus_validate_member', 'harness/c16_member.c', LOOPINV, finder='C16.find.member')
 eq('find.member', 1, '_dbus_validate_member', 12, 'quick', role='finder')
 eq('w.member', 1, '_dbus_validate_member', 257, 'thorough', expect_s=30)
+
+scanner('interface', '_dbus_validate_interface', 'harness/c16_iface.c', LOOPINV, finder='C16.find.interface', extra=dict(defines=['VERIF_FN=_dbus_validate_interface']))
+scanner('error_name', '_dbus_validate_error_name', 'harness/c16_iface.c', LOOPINV, finder='C16.find.error_name', extra=dict(defines=['VERIF_FN=_dbus_validate_error_name']))
+scanner('bus_name', '_dbus_validate_bus_name', 'harness/c16_bus.c', LOOPINV, finder='C16.find.bus_name', extra=dict(defines=['VERIF_NS=0']), expect_s=300, timeout=1500)
+scanner('bus_namespace', '_dbus_validate_bus_namespace', 'harness/c16_bus.c', LOOPINV, finder='C16.find.bus_namespace', extra=dict(defines=['VERIF_NS=1']), expect_s=300, timeout=1500)
+scanner('path', '_dbus_validate_path', 'harness/c16_path.c', LOOPINV, finder='C16.find.path', expect_s=60)
+for i, (nm, fn) in enumerate([('interface', '_dbus_validate_interface'), ('error_name', '_dbus_validate_error_name'),
+                              ('bus_name', '_dbus_validate_bus_name'), ('bus_namespace', '_dbus_validate_bus_namespace'),
+                              ('path', '_dbus_validate_path')]):
+    eq('find.' + nm, i + 2, fn, 12, 'quick', role='finder')
+    # independent cross-check of the P units (thorough tier): complete unwinding on a 32-byte buffer
+    eq('b32.' + nm, i + 2, fn, 32, 'thorough', expect_s=60)
